@@ -7,7 +7,10 @@ from vlib import *
 
 TRACE_CFG = "BurnRedirectTrace.cfg"
 DEFECTS = ["staking_plain_bank", "gov_plain_bank", "no_feepool_update", "bonded_only", "redirect_all", "bond_denom_only",
-           "gate_send_enabled", "gate_community_tax", "gate_deposit_denoms"]
+           "gate_send_enabled", "gate_community_tax", "gate_deposit_denoms", "gate_network"]
+# the chain id the driver runs a network of the model as (the epoch number after the dash is free)
+NET_IDS = {"main": "haqq_11235-1", "testedge1": "haqq_53211-1", "testedge2": "haqq_54211-3", "local": "haqq_121799-1",
+           "other": "haqq_7777-2"}
 SIM_AMT = "25000000000000000007"
 
 MANIFEST_ENTRY = dict(engine="BurnRedirect", design="§4 C14",
@@ -47,6 +50,11 @@ def to_scripts(behaviours, seed):
     out = []
     for i, ops in enumerate(behaviours):
         cfg = script_cfg(seed * 1000 + i)
+        # the first entry of a behaviour is the network and the first height the model chose in Init
+        if not ops or ops[0].get("op") != "chain":
+            raise Infra("behaviour without chain entry")
+        cfg["chainId"], cfg["initialHeight"] = NET_IDS[ops[0]["net"]], ops[0]["h0"]
+        ops = ops[1:]
         pr = GENESIS_PARAMS[i % len(GENESIS_PARAMS)]
         if pr:
             cfg["params"] = pr
@@ -81,7 +89,10 @@ FLOORS = ["hit:doubleSign:bonded", "hit:doubleSign:unbonding", "hit:doubleSign:r
 # (BurnRedirect!EnvClasses evaluated on the logged parameters before the call)
 ENV_FLOORS = {"paramchange": 5, "slash/sendOff": 3, "deposit-burn/sendOff": 2, "slash/tax0": 1, "slash/tax1": 1,
               "deposit-burn/tax0": 1, "deposit-burn/tax1": 1, "slash/erc20Off": 1, "deposit-burn/erc20Off": 1,
-              "deposit-burn/nonDepositDenom": 1}
+              "deposit-burn/nonDepositDenom": 1,
+              "slash/net:main": 2, "slash/net:testedge1": 2, "slash/net:testedge2": 2, "slash/net:local": 2, "slash/net:other": 2,
+              "deposit-burn/net:main": 1, "deposit-burn/net:testedge1": 1, "deposit-burn/net:testedge2": 1,
+              "deposit-burn/net:local": 1, "deposit-burn/net:other": 1, "slash/lateStart": 3, "deposit-burn/lateStart": 2}
 
 
 def run(c):
@@ -100,6 +111,9 @@ def run(c):
         c.add_tlc("BurnRedirect_intended_params_thorough.cfg", r)
     r = tlc_exhaustive(wd, "BurnRedirect.tla", "BurnRedirect_intended_refund.cfg", workers=4, timeout=1500)
     c.add_tlc("BurnRedirect_intended_refund.cfg", r)
+    # every network x first height (the other configurations run as the main network from height 1)
+    r = tlc_exhaustive(wd, "BurnRedirect.tla", "BurnRedirect_intended_networks.cfg", workers=4, timeout=1500)
+    c.add_tlc("BurnRedirect_intended_networks.cfg", r)
     for d in DEFECTS:
         r = tlc_exhaustive(wd, "BurnRedirect.tla", "BurnRedirect_defect_%s.cfg" % d, must="fail", workers=2, timeout=900)
         c.add_tlc("BurnRedirect_defect_%s.cfg" % d, r)
@@ -171,7 +185,7 @@ def run(c):
             if kind and kind not in seen:
                 seen.add(kind)
                 p = o["post"]
-                c.samples.append({"ev": o["ev"], "env": {k: v for k, v in p["env"].items() if k in ("sendDefault", "send", "tax", "minDep", "erc20")},
+                c.samples.append({"ev": o["ev"], "env": {k: v for k, v in p["env"].items() if k in ("chainId", "h0", "sendDefault", "send", "tax", "minDep", "erc20")},
                                   "args": {k: v for k, v in o["args"].items() if k in ("h", "k", "module", "burn", "evidence", "absent")},
                                   "rep": o["rep"], "post_supply": p["supply"], "post_community": p["community"],
                                   "post_distrBal": p["distrBal"], "post_pools": [p["bonded"], p["notBonded"]]})
